@@ -82,6 +82,7 @@ type HSDial struct {
 
 type HSScn struct {
 	Dials []HSDial `json:"dials"`
+	SharedDialer bool `json:"shared_dialer,omitempty"` // all dials use one websocket.Dialer value and one tls.Config
 	// server-side class: a byzantine client against a real Upgrader
 	SrvReq    []byte    `json:"srv_req,omitempty"` // raw request bytes
 	SrvFaults []OpFault `json:"srv_faults,omitempty"`
@@ -163,6 +164,9 @@ type hsRunner struct {
 	keys []string
 	backendCert []tls.Certificate
 	proxyCert   []tls.Certificate
+	shared      *websocket.Dialer
+	curDial     int
+	curTask     *Task
 }
 
 // ---------------------------------------------------------------------------
@@ -211,6 +215,9 @@ func (ca *testCA) leaf(host string) tls.Certificate {
 // node will present (crypto/rand is a deterministic stream shared by all
 // goroutines: nodes must not draw from it concurrently with the client).
 func (h *hsRunner) mint(kind, host string) tls.Certificate {
+	if strings.HasPrefix(kind, "as:") {
+		return h.ca.leaf(kind[3:]) // a trusted certificate, but for that other host
+	}
 	switch kind {
 	case "otherhost":
 		return h.ca.leaf("other.example")
@@ -338,10 +345,26 @@ func (h *hsRunner) clientTLSConfig(d *HSDial) *tls.Config {
 
 func (h *hsRunner) dial(i int, t *Task) {
 	d := &h.scn.HS.Dials[i]
-	res := h.res[i]
-	dialer := websocket.Dialer{ReadBufferSize: d.RBuf, WriteBufferSize: d.WBuf, EnableCompression: d.Comp, Subprotocols: d.Subprotocols}
+	h.curDial, h.curTask = i, t
+	var dialer *websocket.Dialer
+	if h.scn.HS.SharedDialer && h.shared != nil {
+		dialer = h.shared
+	} else {
+		dialer = &websocket.Dialer{ReadBufferSize: d.RBuf, WriteBufferSize: d.WBuf, EnableCompression: d.Comp, Subprotocols: d.Subprotocols}
+		h.configureDialer(dialer, d)
+		if h.scn.HS.SharedDialer {
+			h.shared = dialer
+		}
+	}
+	h.dialWith(dialer, i, t)
+}
+
+// configureDialer installs hooks that always act for the dial in progress
+// (so that one Dialer value can serve several dials).
+func (h *hsRunner) configureDialer(dialer *websocket.Dialer, d *HSDial) {
 	raw := func(hook, network, addr string) (net.Conn, error) {
-		c, err := h.net.Dial(t, addr)
+		res := h.res[h.curDial]
+		c, err := h.net.Dial(h.curTask, addr)
 		hc := HookCall{Hook: hook, Network: network, Addr: addr}
 		if sc, ok := c.(*SimConn); ok {
 			hc.Conn = sc
@@ -364,7 +387,7 @@ func (h *hsRunner) dial(i int, t *Task) {
 				return nil, err
 			}
 			// the hook is trusted to do TLS itself: it does, verifying against the test CA
-			cfg := h.clientTLSConfig(d)
+			cfg := h.clientTLSConfig(&h.scn.HS.Dials[h.curDial])
 			cfg.ServerName = hostOnly(addr)
 			tc := tls.Client(c, cfg)
 			if err := tc.HandshakeContext(ctx); err != nil {
@@ -375,13 +398,21 @@ func (h *hsRunner) dial(i int, t *Task) {
 		}
 	}
 	dialer.TLSClientConfig = h.clientTLSConfig(d)
-	if d.ProxyURL != "" {
-		pu, perr := url.Parse(d.ProxyURL)
-		dialer.Proxy = func(*http.Request) (*url.URL, error) { return pu, perr }
+	dialer.Proxy = func(*http.Request) (*url.URL, error) {
+		cur := &h.scn.HS.Dials[h.curDial]
+		if cur.ProxyURL == "" {
+			return nil, nil
+		}
+		return url.Parse(cur.ProxyURL)
 	}
 	if d.HsTimeoutMs > 0 {
 		dialer.HandshakeTimeout = time.Duration(d.HsTimeoutMs) * time.Millisecond
 	}
+}
+
+func (h *hsRunner) dialWith(dialer *websocket.Dialer, i int, t *Task) {
+	d := &h.scn.HS.Dials[i]
+	res := h.res[i]
 	ctx := context.Background()
 	if d.CtxTimeoutMs > 0 {
 		var cancel func()
@@ -648,6 +679,10 @@ func (h *hsRunner) serveProxy(i int, sc *SimConn) {
 	switch p.Reply {
 	case "200":
 		c.Write([]byte("HTTP/1.1 200 Connection established\r\n\r\n"))
+	case "201", "202", "204", "299":
+		// not 200: the client must abort; the stub nevertheless opens the tunnel, so a client
+		// that carries on shows up at the backend
+		c.Write([]byte("HTTP/1.1 " + p.Reply + " Whatever\r\n\r\n"))
 	case "403":
 		c.Write([]byte("HTTP/1.1 403 Forbidden\r\nContent-Length: 0\r\n\r\n"))
 		c.Close()
